@@ -94,6 +94,8 @@ def do_check(ctx, plug):
       ok1, log1 = C.coq_make([f[:-2] + ".vo"])
       per_file[f] = (ok1, log1)
   results = []
+  built = [f for f in prop_files if ok or per_file.get(f, (False, ""))[0]]
+  rechecked = dict(zip(built, C.coq_props(built))) if built else {}     # the files of one property are re-checked in parallel
   for f in prop_files:
     okf = ok or per_file.get(f, (False, ""))[0]
     src = open(os.path.join(C.COQ, f)).read()
@@ -106,7 +108,7 @@ def do_check(ctx, plug):
       detail = [f"{x[0]}:{x[1]}: {' '.join(x[2].split())[:400]}" for x in m][:4] or [lg[-800:]]
       broken.append(dict(kind="proof", what=f"{f} (theorems {', '.join(names)}) no longer compiles", detail=detail))
       continue
-    r = C.coq_props([f])[0]
+    r = rechecked[f]
     results.append(r)
     if not r["ok"]:
       broken.append(dict(kind="proof", what=f"{f} failed on re-check", detail=r["log"][-800:]))
